@@ -51,6 +51,14 @@ def map_and_loss_timestep(model, x, y, aux_data):
     return jnp.sum(ml.timestep_smse_loss(out, y, 1)), aux_data
 
 
+def map_and_loss_normalized(model, x, y, aux_data):
+    out, aux_data = jax.vmap(model, in_axes=(0, None), out_axes=(0, None), axis_name="batch")(x, aux_data)
+    return ml.normalized_smse_loss(out, y, eps=1e-2), aux_data
+
+
+MAP_AND_LOSS = {"smse": map_and_loss_smse, "timestep": map_and_loss_timestep, "normalized": map_and_loss_normalized}
+
+
 def map_and_loss_with_map(model, x, y, aux_data):
     out, aux_data = jax.vmap(model, in_axes=(0, None), out_axes=(0, None), axis_name="batch")(x, aux_data)
     return ml.smse_loss(out, y), aux_data, out
@@ -269,7 +277,7 @@ def gen_plan(rng, profile: dict, seed: int) -> dict:
                     crash = {"epoch": rng.choice([9, 19]) if epochs >= 20 else 9, "in_checkpoint_write": rng.randint(1, 4), "seed": rng.getrandbits(24)}
             seg = {
                 "epochs": epochs, "opt": opt, "lr": lr, "wd": rng.choice([1e-2, 0.1]), "ndev": ndev, "B": B, "L": nb * B,
-                "loss": rng.choice(["smse", "smse", "timestep"]), "key": rng.getrandbits(31), "val": rng.random() < 0.3, "wandb": rng.random() < 0.3,
+                "loss": rng.choice(["smse", "smse", "timestep", "normalized"]), "key": rng.getrandbits(31), "val": rng.random() < 0.3, "wandb": rng.random() < 0.3,
                 "wandb_fail_at": rng.choice([None, None, 2, 11]), "wandb_fail_kind": rng.choice(["slow", "raise"]), "clock": rng.choice(["none", "none", "jumps"]),
                 "disk_fail": rng.choice([None, None, None, {"at": rng.randint(1, 60), "kind": rng.choice(["enospc", "eio", "short"])}]),
                 "crash": crash, "restart_key": rng.getrandbits(31),
@@ -402,7 +410,7 @@ def _exec_train(plan, ctx):
             world.disk.write_faults = {world.disk.write_calls + seg["disk_fail"]["at"]: seg["disk_fail"]["kind"]}
         hard0 = world.faults.get("net_error", 0) + world.faults.get("disk_enospc", 0) + world.faults.get("disk_eio", 0)
         before = model
-        mal = map_and_loss_smse if seg["loss"] == "smse" else map_and_loss_timestep
+        mal = MAP_AND_LOSS[seg["loss"]]
         kinds.append(f"train:{seg['opt']}:n{seg['ndev']}:{'ckpt' if seg['epochs'] >= 10 else 'nockpt'}")
         crashed = False
         with world, capture_stdout():
